@@ -1312,6 +1312,78 @@ def kf_ambiguity_region(it, real_types):
     return len(hit) == 2
 
 
+def _fam(t):
+    k = t[0]
+    return "T" if k in ("tb", "t", "tv") else "F" if k in ("fb", "f") else k
+
+
+def py_overlap(U, a, b):
+    """mirror of Lean `overlap`: False only if no argument type can match both patterns"""
+    if a[0] == "any" or b[0] == "any":
+        return True
+    if a[0] == "u":
+        return any(py_overlap(U, x, b) for x in a[1])
+    if b[0] == "u":
+        return any(py_overlap(U, a, y) for y in b[1])
+    fa, fb = _fam(a), _fam(b)
+    comp = lambda x, y: U.L(x, y) or U.L(y, x)   # noqa: E731
+    if fa == "c" or fb == "c":
+        return comp(org(U, a), org(U, b))
+    if fa != fb:
+        return False
+    if fa == "T":
+        if a[0] == "t" and b[0] == "t":
+            return len(a[1]) == len(b[1]) and all(py_overlap(U, x, y) for x, y in zip(a[1], b[1]))
+        if a[0] == "t" and b[0] == "tv":
+            return all(py_overlap(U, x, b[1]) for x in a[1])
+        if a[0] == "tv" and b[0] == "t":
+            return all(py_overlap(U, a[1], y) for y in b[1])
+        return True
+    if fa == "F":
+        return True
+    if not comp(a[1], b[1]):
+        return False
+    if not a[2] or not b[2]:
+        return True
+    return len(a[2]) == len(b[2]) and all(py_overlap(U, x, y) for x, y in zip(a[2], b[2]))
+
+
+def py_sig_overlap(U, a, b):
+    alts = lambda s: s[1] if s[0] == "v" else [s]   # noqa: E731
+    if not a and not b:
+        return True
+    if not a:
+        return len(b) == 1 and b[0][0] == "v"
+    if not b:
+        return len(a) == 1 and a[0][0] == "v"
+    if not any(py_overlap(U, x[1], y[1]) for x in alts(a[0]) for y in alts(b[0])):
+        return False
+    va, vb = a[0][0] == "v", b[0][0] == "v"
+    if va and vb:
+        return True
+    if va:
+        return py_sig_overlap(U, a, b[1:])
+    if vb:
+        return py_sig_overlap(U, a[1:], b)
+    return py_sig_overlap(U, a[1:], b[1:])
+
+
+def py_hidden_ambiguities(U, it):
+    sup = md_conflict.supercedes
+    sigs, enc = it["sigs"], it["enc"]
+    out = []
+    for i in range(len(sigs)):
+        for j in range(i + 1, len(sigs)):
+            if (py_sig_overlap(U, enc[i], enc[j]) and not sup(sigs[i], sigs[j]) and not sup(sigs[j], sigs[i])
+                    and not any(sup(c, sigs[i]) and sup(c, sigs[j]) for c in sigs)):
+                out.append((i, j))
+    return out
+
+
+def is_listed_ambiguity(it, i, j):
+    return it["name"] == KF_AMBIG_DISPATCHER and {fname(it["funcs"][i]), fname(it["funcs"][j])} == set(KF_AMBIG_RULES)
+
+
 def instantiate(U, rng, tr, argpool, depth=0):
     """a random argument type below (usually) the pattern `tr`"""
     k = tr[0]
@@ -1402,6 +1474,30 @@ def gen_dispatch_cases(ctx, U, D, observed):
                     ctx.count("dispatch:not-an-argument-type")
                     continue
                 cases.append((di, tys, f"sig{si}"))
+    # targeted: argument tuples inside the overlap of every ambiguous pair of patterns
+    for di, it in enumerate(D.items):
+        for (i, j) in py_hidden_ambiguities(U, it):
+            ctx.count("dispatch:hidden-ambiguous-pairs" + (":listed" if is_listed_ambiguity(it, i, j) else ":UNLISTED"))
+            got = 0
+            for attempt in range(300):
+                si = (i, j)[attempt % 2]
+                tys = []
+                for s in it["enc"][si]:
+                    if s[0] == "v":
+                        for _ in range(rng.choice([0, 1, 2])):
+                            tys.append(instantiate(U, rng, rng.choice(s[1])[1], argpool))
+                    else:
+                        tys.append(instantiate(U, rng, s[1], argpool))
+                try:
+                    tys = tuple(canon(U, t) for t in tys)
+                    rt = tuple(typing_wrap(U.dec(t)) for t in tys)
+                except Exception:
+                    continue
+                if all(is_argtype(t) for t in tys) and real_matches(rt, it["sigs"][i]) and real_matches(rt, it["sigs"][j]):
+                    cases.append((di, tys, f"overlap{i}-{j}"))
+                    got += 1
+                    if got >= 3:
+                        break
     return cases
 
 
@@ -1493,6 +1589,14 @@ def part_dispatch(ctx, U, D, observed, use_driver=True, kf_cases=None):
                     return None
         ctx.count(f"dispatch:origin:{'observed' if origin == 'observed' else 'synthesised'}")
         reqs.append(f"C16 dispatch {di} (" + " ".join("(w " + tsx(t) + ")" if t[0] != "g" else "(n " + tsx(t) + ")" for t in tys) + ")")
+    if use_driver:
+        hid = ctx.driver.ask([f"C16 hidden {di}" for di in range(len(D.items))])
+        for di, (it, a) in enumerate(zip(D.items, hid)):
+            mine = py_hidden_ambiguities(U, it)
+            lean = [(int(p[0]), int(p[1])) for p in (parse_sx(a[3:]) if a.startswith("ok ") else [])] if a != "ok ()" else []
+            if sorted(mine) != sorted(lean):
+                ctx.infra_errors.append(f"hidden ambiguities of {it['name']}: python {mine} vs Lean {a}")
+                return None
     if use_driver:
         ans = ctx.driver.ask(reqs)
         for ci, ((di, tys, origin), a) in enumerate(zip(cases, ans)):
@@ -1738,10 +1842,19 @@ def part_known_finding(ctx, U):
     ans = ctx.driver.ask([f"C16 sub tb (t any)", f"C16 subc tb (t any)", f"C16 sub (t {tsx(i_)} {tsx(i_)}) (t any)"]) if ctx.driver.available() else None
     if ans is not None and rep and ans != ["ok T", "ok F", "ok F"]:
         ctx.infra_errors.append(f"model does not reproduce KF-tuple-subclass: {ans}")
-    # Any inside a Union: reflexivity corner (reported, see final notes)
+    # dedicated stream for KF-union-any-reflexivity
     u = T.Union[T.Any, int]
     r = deep_issubclass(u, u)
-    ctx.count("corner:Union[Any,int]<=itself:" + str(r))
+    rep2 = (r is False)
+    ctx.count("known:KF-union-any-reflexivity:" + ("reproduced" if rep2 else "absent"))
+    if not ctx.known("KF-union-any-reflexivity", reproduced=rep2,
+                     what="deep_issubclass(Union[Any, int], Union[Any, int]) is False (reflexivity fails for a Union containing Any)") and rep2:
+        ctx.fail("input", "C16.reflexivity", witness=dict(type="Union[Any, int]"), expected="deep_issubclass(t, t) is True", got="False",
+                 python=PY_SUB.format(what="reflexivity", body="a = Union[Any, int]\nprint(R(a, a))\nFAILS = (R(a, a) is False)"))
+    if ctx.driver.available():
+        a2 = ctx.driver.ask([f"C16 sub (u any {tsx(i_)}) (u any {tsx(i_)})"])
+        if rep2 and a2 != ["ok F"]:
+            ctx.infra_errors.append(f"model does not reproduce KF-union-any-reflexivity: {a2}")
     return rep
 
 
